@@ -306,6 +306,45 @@ func c11FixedCases() []fxCase {
 				return fxCat(t, fxScope(fxNS("", names[len(names)-1]), fxCat(c11OpBytes(pOpOpRegion), fxNS("\\", "RAA0"), []byte{0, 0x0a, 0, 0x0a, 0x10})))
 			}()},
 			check: fxWant("\\DAA0", "\\DAA1", "\\DAB0", "\\DAB4", "\\RAA0")},
+		{id: "R6-literal-bytes", what: "a table written as the literal bytes the ACPI specification assigns (no opcode constant of the package is used to build it): Scope(\\_SB_){Device(DAA0){Name Method Mutex Event OpRegion Field} Processor PowerResource ThermalZone}",
+			tables: [][]byte{func() []byte {
+				pk := func(op []byte, body ...[]byte) []byte {
+					b := fxCat(body...)
+					if len(b)+1 <= 0x3f {
+						return fxCat(op, []byte{byte(len(b) + 1)}, b)
+					}
+					l := len(b) + 2 // two-byte PkgLength: 0x40 | low nibble, then bits 4-11
+					return fxCat(op, []byte{0x40 | byte(l&0xf), byte(l >> 4)}, b)
+				}
+				dev := pk([]byte{0x5b, 0x82}, []byte("DAA0"),
+					[]byte{0x08, 'N', 'A', 'A', '0', 0x0a, 0x2a},
+					pk([]byte{0x14}, []byte("MAA0"), []byte{0x01}, []byte{0xa4, 0x68}),
+					[]byte{0x5b, 0x01, 'X', 'A', 'A', '0', 0x00},
+					[]byte{0x5b, 0x02, 'E', 'A', 'A', '0'},
+					[]byte{0x5b, 0x80, 'R', 'A', 'A', '0', 0x00, 0x0a, 0x00, 0x0a, 0x10},
+					pk([]byte{0x5b, 0x81}, []byte("RAA0"), []byte{0x00}, []byte("FAA0"), []byte{0x08}))
+				return pk([]byte{0x10}, []byte{0x5c, '_', 'S', 'B', '_'}, dev,
+					pk([]byte{0x5b, 0x83}, []byte("PAA0"), []byte{0x01, 0, 0, 0, 0, 0x06}),
+					pk([]byte{0x5b, 0x84}, []byte("WAA0"), []byte{0x00, 0x00, 0x00}),
+					pk([]byte{0x5b, 0x85}, []byte("TAA0")))
+			}()},
+			check: func(tree *ObjectTree) string {
+				for _, w := range [][2]string{{"\\_SB_.DAA0", "Device"}, {"\\_SB_.DAA0.NAA0", "Name"}, {"\\_SB_.DAA0.MAA0", "Method"}, {"\\_SB_.DAA0.XAA0", "Mutex"},
+					{"\\_SB_.DAA0.EAA0", "Event"}, {"\\_SB_.DAA0.RAA0", "OpRegion"}, {"\\_SB_.PAA0", "Processor"}, {"\\_SB_.WAA0", "PowerRes"}, {"\\_SB_.TAA0", "ThermalZone"}} {
+					o := fxAt(tree, w[0])
+					if o == nil {
+						return "missing-" + w[1]
+					}
+					if n := pOpcodeName(o.opcode); n != w[1] {
+						return w[1] + "-parsed-as-" + strings.Replace(n, " ", "", -1)
+					}
+				}
+				n := fxAt(tree, "\\_SB_.DAA0.NAA0")
+				if kids := c11Kids(tree, n); len(kids) != 2 || kids[1].value != uint64(0x2a) {
+					return "name-value-wrong"
+				}
+				return fxOperands("\\_SB_.DAA0.MAA0", 0xa4, 1)(tree)
+			}},
 		// ---- open findings (expected to fail with the recorded observation) ----
 		{id: "K15b-acquire-derefof-timeout", what: "Acquire(DerefOf(Arg0), 0xffff): the operands of DerefOf are left for the second pass, the timeout word is read from the bytes that follow DerefOf's opcode", tables: [][]byte{fxMethod(fxNS("", "MAA1"), 1, fxCat(c11OpBytes(pOpAcquire), []byte{byte(pOpDerefOf), byte(pOpArg0), 0xff, 0xff}))}, check: fxOperands("\\MAA1", pOpAcquire, 2)},
 		{id: "K15c-condrefof-type6-then-second-name", what: "CondRefOf(DerefOf(Arg0), RefOf(Local0)): DerefOf's operand is taken as CondRefOf's second name, the real second name is left behind as a statement", tables: [][]byte{fxMethod(fxNS("", "MAA1"), 1, fxCat(c11OpBytes(pOpCondRefOf), []byte{byte(pOpDerefOf), byte(pOpArg0), byte(pOpRefOf), byte(pOpLocal0)}))}, check: fxOperands("\\MAA1", pOpCondRefOf, 2)},
